@@ -28,8 +28,8 @@ CHECKS = {
         "(bit 7, only set), 2, 3 and the VP8 picture-id bytes change, the new id is old+delta modulo the 7-/15-bit space and both of pion's parsers (modelled) accept "
         "the output with exactly that id; differential run of the model against the real PacketFlags/RewritePacket/pion parsers on type-directed and malformed "
         "packets, and of the real rtpDownTrack.Write on layered VP8/VP9 streams with a picture-id consecutiveness oracle (incl. a >65536-withheld-packet history)",
-   note=TB + "pion's rtp/VP8/VP9 parsers are re-implemented in Lean and differentially tested, not proved equal to pion. Write-level composition theorems (marker rule, "
-        "id consecutiveness) are in Props/C02Write.lean when present; until then that part rests on the oracle.",
+   note=TB + "pion's rtp/VP8/VP9 parsers are re-implemented in Lean and differentially tested, not proved equal to pion. Write-level composition (marker rule, picture ids "
+        "consecutive over in-order loss-free whole-frame histories, end to end through write) is Props/C02Write.lean.",
    technique="Lean 4 proof (byte-frame theorems on RewritePacket, parser round trip) + differential check with picture-id oracle",
    ref="DESIGN.md section 5 C02"),
  "C04": dict(engine="down+codecs",
@@ -77,6 +77,15 @@ CHECKS = {
         "by the harness (exploration, not proof).",
    technique="Lean 4 totality proofs (no panic, length preserved) + differential/fuzz run under recover()",
    ref="DESIGN.md section 5 C12"),
+ "C19": dict(engine="paths",
+   text="Lean 4 proofs over models of path.Clean (complete characterisation: the byte loop equals component-level lexical resolution, for every string), "
+        "validGroupName/validUsername (accept exactly the safe names), parseGroupName (components always safe; agrees with validGroupName), getDescriptionFile "
+        "(every file name tried, for every input and callback behaviour, is Directory + safe components + .json), sanitise and the recording/delete-form name checks; "
+        "the models run against the real functions exhaustively over a 7-symbol alphabet (incl. /, ., \\, NUL, a 2-byte rune) plus random longer strings, and "
+        "end-to-end ops on a scratch tree with sentinel files outside the roots check that nothing outside is read, created, removed or served",
+   note=TB + "os.Root confinement (symlinks etc.) is the standard library's and is trusted; Unix only (filepath.Separator = '/').",
+   technique="Lean 4 proof (path.Clean characterisation, validator ⇔ safe-name spec, confinement of tried file names) + exhaustive small-alphabet differential check",
+   ref="DESIGN.md section 5 C19"),
  "C05": dict(engine="cache",
    text="Lean 4 refinement proof (ring buffer with three-way resize refines a bounded FIFO; Get/GetAt soundness; newest-window retrievability) for "
         "every capacity ≥ 1 and every op sequence, tied to packetcache.Cache by a differential run of the model against the real API on every check, "
